@@ -81,10 +81,13 @@ func (c *c13Cfg) pageClass() string {
 }
 
 func (c *c13Cfg) locClass() string {
-	if !c.AtStart {
+	switch {
+	case !c.AtStart:
 		return "end"
+	case strings.HasPrefix(c.Temp, "rawfile") || strings.HasPrefix(c.Temp, "lseek"):
+		return "start/seekable"
 	}
-	return "start/" + c.Temp
+	return "start/rw"
 }
 
 var c13vocab = strings.Fields("the of and to in is that for it as was with be by on not he this are or his from at which but have an had they you were their one all we can her has there been if more when will would who so no out up into than them only some could time these two may then do first any my now such like our over man me even most made after also did many before must through back years where much your way well down should because each just those people how too little state good very make world still own see men work long get here between both life being under never day same another know while last might us great old year off come since against go came right used take three")
@@ -257,13 +260,19 @@ type c13Case struct {
 // an exhaustive fault sweep is cheap.
 func c13gen(r *rand.Rand, thorough, small bool) *c13Case {
 	var c c13Cfg
-	switch p := r.Intn(8); {
-	case p < 4:
-		c.Codec = "zlib"
-	case p < 6:
+	// zstd at LevelSmall costs seconds of CPU per Writer (huge match-finder
+	// tables), so it gets a small share in the quick tier.
+	zstdShare := 3
+	if thorough {
+		zstdShare = 5
+	}
+	switch p := r.Intn(100); {
+	case p < zstdShare:
+		c.Codec = "zstd"
+	case p < zstdShare+28:
 		c.Codec = "lz4"
 	default:
-		c.Codec = "zstd"
+		c.Codec = "zlib"
 	}
 	// sizing
 	modeRoll := r.Intn(100)
@@ -396,12 +405,18 @@ func c13gen(r *rand.Rand, thorough, small bool) *c13Case {
 		dc = 65536
 	}
 	if dc > 0 {
-		capChunks := 3000
-		if thorough && r.Intn(40) == 0 {
+		capChunks := 700
+		if r.Intn(30) == 0 {
+			capChunks = 3000
+		}
+		if thorough && r.Intn(150) == 0 {
 			capChunks = 70000 // three index levels
 		}
 		if c.NRes > 0 {
 			capChunks = 400
+		}
+		if c.Codec == "zstd" {
+			capChunks = 40
 		}
 		if small {
 			capChunks = 24
@@ -478,9 +493,9 @@ func c13gen(r *rand.Rand, thorough, small bool) *c13Case {
 		if lim := 64 * c.CChunk; lim < pend {
 			pend = lim
 		}
-		budget := uint64(2500000)
+		budget := uint64(800000)
 		if thorough {
-			budget = 10000000
+			budget = 3000000
 		}
 		if pend > 0 {
 			if mw := int(budget / pend); mw < maxWrites {
@@ -1495,54 +1510,65 @@ func c13selfTest(rc *vk.Rec) bool {
 
 // ------------------------------------------------------------------ main --
 
+// c13sweepOK bounds the cost of a fault sweep by the number of underlying calls
+// of the fault-free run (every re-run pays the codec's set-up cost again).
+func c13sweepOK(cfg *c13Cfg, out *c13Out, npieces int, thorough bool, phase string, idx int64) bool {
+	if out.SinkLog == nil && phase == "rt" {
+		return false // raw sink: the call count is unknown
+	}
+	calls := out.NW + out.NTW + out.NTR + out.NTS
+	if cfg.Temp == "rawbuf" || cfg.Temp == "rawfile" || cfg.Temp == "rawfile-off" {
+		calls += out.NW // the temp-file calls are not counted yet; roughly as many
+	}
+	limit := 24
+	if thorough {
+		limit = 60
+	}
+	if phase == "flt" {
+		limit = 120
+	}
+	if cfg.Codec == "zstd" {
+		limit = 5
+		if thorough {
+			limit = 20
+		}
+	}
+	if calls > limit || npieces > 64 {
+		return false
+	}
+	if thorough {
+		return phase == "flt" || idx%2 == 0
+	}
+	return phase == "flt" || idx%8 == 0
+}
+
 // C13 runs the monitor.
 func C13(rc *vk.Rec) {
 	if !c13selfTest(rc) {
 		return
 	}
 	race := os.Getenv("C13_RACE") != ""
-	nrt := rc.N(2400, 120000)
-	nflt := rc.N(400, 12000)
+	nrt := rc.N(960, 24000)
+	nflt := rc.N(160, 2400)
 	if race {
-		nrt, nflt = 24, 3
+		nrt, nflt = 12, 1
 	}
 	thorough := rc.Thorough()
-	for idx := int64(0); idx < int64(nrt); idx++ {
-		phase := "rt"
-		if rc.SkipCase(phase, idx) {
-			continue
-		}
-		rc.Mark(phase, idx)
-		r := rc.RNG(phase, idx)
-		ck := &c13Checker{rc: rc, phase: phase, idx: idx, cs: c13gen(r, thorough, false)}
-		cls, out := ck.faultFree()
-		// Round-trip cases that happen to be small are swept too (all of them
-		// in the thorough tier, one in four in the quick tier).
-		if cls != "" && !race {
-			calls := out.NW + out.NTW + out.NTR + out.NTS
-			if out.SinkLog == nil {
-				calls = 1 << 30
+	for _, ph := range []struct {
+		phase string
+		n     int
+	}{{"rt", nrt}, {"flt", nflt}} {
+		for idx := int64(0); idx < int64(ph.n); idx++ {
+			if rc.SkipCase(ph.phase, idx) {
+				continue
 			}
-			limit := 40
-			if thorough {
-				limit = 160
-			}
-			if calls <= limit && len(ck.cs.Pieces) <= 64 && (thorough || idx%4 == 0) {
+			rc.Mark(ph.phase, idx)
+			r := rc.RNG(ph.phase, idx)
+			ck := &c13Checker{rc: rc, phase: ph.phase, idx: idx, cs: c13gen(r, thorough, ph.phase == "flt")}
+			cls, out := ck.faultFree()
+			if cls != "" && !race && c13sweepOK(&ck.cs.Cfg, out, len(ck.cs.Pieces), thorough, ph.phase, idx) {
 				ck.sweep(cls)
 			}
-		}
-	}
-	for idx := int64(0); idx < int64(nflt); idx++ {
-		phase := "flt"
-		if rc.SkipCase(phase, idx) {
-			continue
-		}
-		rc.Mark(phase, idx)
-		r := rc.RNG(phase, idx)
-		ck := &c13Checker{rc: rc, phase: phase, idx: idx, cs: c13gen(r, thorough, true)}
-		cls, _ := ck.faultFree()
-		if cls != "" {
-			ck.sweep(cls)
 		}
 	}
 }
